@@ -75,6 +75,19 @@ def verify_function(world, qualname):
     ex.exc_out = saved
     short = qualname.split('.')[-1] if c.kind != 'lemma' else qualname.split('.', 1)[1]
     rty = world.return_type(fn, c) if c.kind != 'lemma' else NONE
+    if getattr(c, 'merge_exit_flag', False):
+        # join the normal exits into one ite-merged state: the postconditions are then checked once
+        normal = [o for o in outs if o.kind in ('normal', 'return')]
+        if len(normal) > 1:
+            for o in normal:
+                o.st = o.st.copy()
+                o.st.locals = dict(o.st.locals)
+                o.st.locals['$ret'] = coerce(o.val if o.kind == 'return' else mk_none(), rty) if not isinstance(rty, TNone) else mk_none()
+            merged = ex.merge_states([o.st for o in normal])
+            if merged is not None:
+                res.paths += len(normal) - 1
+                res.normal_paths += [list(o.st.pc) for o in normal[1:]]
+                outs = [o for o in outs if o.kind not in ('normal', 'return')] + [Outcome('return', merged, merged.locals.get('$ret', mk_none()))]
     for o in outs:
         res.paths += 1
         if o.kind in ('normal', 'return'):
@@ -261,16 +274,21 @@ def skolemize_and_instantiate(hyps, goal):
     consts = [z3.Const(fresh_name('sk_' + goal.var_name(i)), goal.var_sort(i)) for i in range(n)]
     # substitute_vars: de Bruijn index 0 is the LAST bound variable
     g2 = z3.substitute_vars(goal.body(), *reversed(consts))
-    ints = [c for c in consts if c.sort() == I]
     extra = []
-    if ints:
-        cands = []
-        for c in ints:
-            cands += [c, c - 1, c + 1]
-        for h in hyps:
-            if z3.is_quantifier(h) and h.is_forall() and h.num_vars() == 1 and h.var_sort(0) == I:
-                for t in cands:
-                    extra.append(z3.substitute_vars(h.body(), t))
+    by_sort = {}
+    for c in consts:
+        by_sort.setdefault(c.sort(), [])
+        by_sort[c.sort()] += [c, c - 1, c + 1] if c.sort() == I else [c]
+    def inst(h):
+        # instances of universally quantified hypotheses (also those under a conjunction) at the goal's constants
+        if z3.is_quantifier(h) and h.is_forall() and h.num_vars() == 1 and h.var_sort(0) in by_sort:
+            for t in by_sort[h.var_sort(0)]:
+                extra.append(z3.substitute_vars(h.body(), t))
+        elif z3.is_and(h):
+            for ch in h.children():
+                inst(ch)
+    for h in hyps:
+        inst(h)
     return g2, extra
 
 
